@@ -111,11 +111,68 @@ def r2_union(ctx, prog):
              "locale is merged", floor=6)
     ast = ctx.ast
     fn = ast.fn(PV, "merge", impl_self="ParsedValue")
-    t = flatp(show(fn.body)) if fn else ""
-    if has(t, "self.index_stringsstrings;self.get_keys_innerkey_path,interpol_or_lit,false"):
-        r.inst("ParsedValue::merge", "every non-default locale's value is collected into the key's own InterpolOrLit")
+    if fn is None:
+        r.missing("ParsedValue::merge")
     else:
-        r.viol("R2:ParsedValue::merge#collect", "non-default locales are no longer collected into the key's argument set", file=PV)
+        # evaluated (rules/absint.py): a later locale's value of every kind merged into a key whose argument set so far is a
+        # literal of some type / a set of arguments: what was collected from earlier locales is never lost (`locales may mix
+        # value kinds freely`); a literal leaves a set of arguments alone, two literals of different types give the zero-field
+        # builder, any other value is collected into the same set
+        from rules import absint
+        from rules.absint import AEval, A, C, CF, I, L, T, UNIT
+
+        def S(x):
+            return ("str", x)
+        K0 = CF("InterpolationKeys", variables=L(T(CF("Key", name=S("var_x")), A("info")), T(CF("Key", name=S("var_count")), A("range-i32"))), components=L(CF("Key", name=S("comp_b"))))
+        EMPTY = absint.DEFAULT
+        olds = {"interpolation": C("Interpol", K0), "string": C("Lit", C("String")), "number": C("Lit", C("Unsigned")), "bool": C("Lit", C("Bool"))}
+        lits = {"string": (C("Literal", C("String", S("t"), C("MAX"))), C("String")), "number": (C("Literal", C("Unsigned", I(5))), C("Unsigned")),
+                "bool": (C("Literal", C("Bool", ("bool", False))), C("Bool")), "signed": (C("Literal", C("Signed", I(-1))), C("Signed"))}
+        others = {"variable": CF("Variable", key=CF("Key", name=S("var_y")), formatter=C("None")), "bloc": C("Bloc", L(A("piece"))), "component": CF("Component", key=CF("Key", name=S("comp_c")), inner=A("inner")),
+                  "range": C("Ranges", A("ranges")), "plural": C("Plurals", A("plurals")), "reference": C("ForeignKey", A("cell"))}
+        bad = []
+        ncase = 0
+        for oname, old in olds.items():
+            for vname, val in list((k, v[0]) for k, v in lits.items()) + list(others.items()):
+                collected = []
+
+                def gki(rv, a, collected=collected):
+                    collected.append((rv, a[1], a[2] if len(a) > 2 else None))
+                    cur = a[1]
+                    return ("mutargs", C("Ok", UNIT), {1: C("Interpol", A("collected(%s + %s)" % (absint.fmt(cur)[:40], rv[1])))})
+                ev = AEval(funcs={}, builtins={"reduce": lambda rv, a: UNIT, "index_strings": lambda rv, a: UNIT, "get_keys_inner": gki,
+                                               "get_type": lambda rv, a: C(rv[1]) if rv[0] == "ctor" else rv})
+                keys = CF("Value", value=old, defaults=A("defaults"))
+                got = ev.run_fn(fn, [val, keys, S("fr"), A("default_to"), A("key_path"), A("strings"), A("warnings")])
+                ncase += 1
+                if isinstance(got, str):
+                    bad.append("cannot be evaluated (%s into %s): %s" % (vname, oname, got))
+                    break
+                after = absint.fields_of((getattr(ev, "last_env", None) or {}).get("keys", keys)).get("value")
+                if vname in lits:
+                    ty = lits[vname][1]
+                    if old[1] == "Interpol":
+                        want = old
+                    elif old[2][0] == ty:
+                        want = old
+                    else:
+                        want = "empty"
+                    okv = (after == want) if want != "empty" else (after[0] == "ctor" and after[1] == "Interpol" and (after[2][0] == EMPTY or (after[2][0][0] == "ctor" and not any(x[1][1] for x in after[2][0][3]))))
+                    if got != C("Ok", UNIT) or not okv or collected:
+                        bad.append("a %s literal merged into a key whose arguments so far are %s gives %s and leaves %s (expected %s)" % (
+                            vname, absint.fmt(old)[:80], absint.fmt(got)[:40], absint.fmt(after)[:100] if after else after,
+                            "them unchanged" if want != "empty" else "the zero-field builder"))
+                else:
+                    if got != C("Ok", UNIT) or len(collected) != 1 or collected[0][0] != val or collected[0][1] != old or not (after[0] == "ctor" and after[1] == "Interpol" and after[2][0][0] == "atom"):
+                        bad.append("a %s merged into a key whose arguments so far are %s: collected %s, result %s, arguments afterwards %s (expected exactly one collection of this value into the key's own set)" % (
+                            vname, absint.fmt(old)[:60], [(absint.fmt(c[0])[:30], absint.fmt(c[1])[:30]) for c in collected], absint.fmt(got)[:40], absint.fmt(after)[:80] if after else after))
+            else:
+                continue
+            break
+        if bad:
+            r.viol("R2:ParsedValue::merge#collect", "; ".join(bad[:2]), file=PV, line=fn.line)
+        else:
+            r.inst("ParsedValue::merge", "%d (value kind, arguments collected so far) cases: literals leave collected arguments alone (equal literal types stay literal, different ones give the zero-field builder), every other value is collected once into the key's own set" % ncase)
     fn = ast.fn(PV, "get_keys", impl_self="ParsedValue")
     t = flatp(show(fn.body)) if fn else ""
     if same(t, "{letmutkeys=InterpolOrLit::LitLiteralType::String;self.get_keys_innerkey_path,&mutkeys,true?;Okkeys}"):
